@@ -124,6 +124,8 @@ void search<T, ES>::tune_parameters()
   if (!constrained.max_stuck_time.has_value())
     prob_.env.max_stuck_time = dflt.max_stuck_time;
 
+  prob_.env.reconcile(constrained);
+
   Ensures(prob_.env.is_valid(true));
 }
 
